@@ -476,6 +476,13 @@ class LinkAligned(LinkCollection):
                                   data2.pixel_component_ids[j]))
         self._links[:] = links
 
+    def __gluestate__(self, context):
+        return dict(data1=context.id(self.data1), data2=context.id(self.data2))
+
+    @classmethod
+    def __setgluestate__(cls, rec, context):
+        return cls(context.object(rec['data1']), context.object(rec['data2']))
+
 
 def functional_link_collection(function, labels1=None, labels2=None,
                                display=None, description=None):
